@@ -2,9 +2,76 @@
    H is the digest (SHA-1, lower-case hex) as a Section variable of the proof files; what is asked
    of it is stated in each theorem: nothing in text mode, no collision between the two joined
    strings compared otherwise. *)
-From Coq Require Import NArith.
+From Coq Require Import NArith ZArith.
 From Stam Require Import Base.Tac Model.Offset Model.Utf8 Model.Store Model.Validate
-     Spec.ValidateSpec Proofs.ValidateJoin.
+     Spec.StoreSpec Spec.ValidateSpec Proofs.StoreInv Proofs.StoreSets Proofs.ValidateJoin Proofs.ValidateProtect.
+
+(** W s: every invariant of a reachable store (reverse indices exact and chronological, dataset
+    invariants incl. the deduplicated vocabulary, exact id maps, no dangling reference).
+    It holds in every store built by the nine operations of C01 and protect_text, in any order. *)
+Theorem C18_reachable_invariants : forall s, reach s -> W s.
+Proof. exact reach_W. Qed.
+
+Theorem C18_histories_invariants : forall ops, Forall op_ok ops -> W (run ops).
+Proof. exact reachable_W. Qed.
+
+(** protect_text neither fails nor panics, and keeps every invariant: the reverse index it
+    updates by hand (dataset_data_annotation_map) stays exact and in chronological order, the
+    validation dataset keeps its key index, id maps and deduplicated vocabulary *)
+Theorem C18_protect_total : forall H txts s m, W s -> snd (protect H txts s m) = OOk 0.
+Proof. exact protect_total. Qed.
+
+Theorem C18_protect_inv : forall H txts s m, W s -> W (fst (protect H txts s m)).
+Proof. exact protect_W. Qed.
+
+Theorem C18_protect_index_exact : forall H txts s m, W s ->
+  let s' := fst (protect H txts s m) in
+  (forall d x, tget (ddam s') d x = s_data_anns s' d x) /\ SetsInv s'.
+Proof.
+  intros H txts s m HW s'. pose proof (protect_W H txts s m HW) as [HI HS _ _ _ _ _].
+  split; [intros d x; exact (I_ddam _ _ HI d x eq_refl)|exact HS].
+Qed.
+
+(** First half.  In every mode, every annotation of the protected store that did not carry
+    validation information of its own is reported valid if it selects text (some selected
+    string is non-empty) and missing otherwise - never invalid; annotations are neither created
+    nor lost. *)
+Theorem C18_protect_valid : forall H txts s m, W s ->
+  forall y a0, get_ann s y = Some a0 -> carries_info s a0 = false ->
+  exists a1, get_ann (fst (protect H txts s m)) y = Some a1
+             /\ validate_ann H txts (fst (protect H txts s m)) a1 = demand_protected txts s a0.
+Proof. exact protect_valid_store. Qed.
+
+Theorem C18_protect_same_slots : forall H txts s m, W s ->
+  forall y, get_ann (fst (protect H txts s m)) y = None <-> get_ann s y = None.
+Proof. exact protect_same_slots. Qed.
+
+(** Second half.  The protected store read against texts of the same lengths (any number of
+    substitutions in any resources): an annotation is reported invalid exactly when a string it
+    selects differs, valid when none does, missing when it selects no text.  The digest is only
+    asked not to collide on the two joined strings compared ... *)
+Theorem C18_detects : forall H txts txts' s m, W s ->
+  map (@length N) txts = map (@length N) txts' ->
+  forall y a0, get_ann s y = Some a0 -> carries_info s a0 = false ->
+  let d := odflt (ann_vstr s a0 KDEL) in
+  H_inj_on H [text_join d (ann_pieces txts s a0); text_join d (ann_pieces txts' s a0)] ->
+  exists a1, get_ann (fst (protect H txts s m)) y = Some a1
+             /\ validate_ann H txts' (fst (protect H txts s m)) a1 = demand_edited txts txts' s a0.
+Proof. exact protect_detects_store. Qed.
+
+(** ... and not even that whenever the mode wrote a text reference (Text, Both, Auto below 40
+    characters) *)
+Theorem C18_detects_text_reference : forall H txts txts' s m, W s ->
+  map (@length N) txts = map (@length N) txts' ->
+  forall y a0, get_ann s y = Some a0 -> carries_info s a0 = false ->
+  snd (mode_flags m (ranges_len (ann_ranges s a0))) = true ->
+  exists a1, get_ann (fst (protect H txts s m)) y = Some a1
+             /\ validate_ann H txts' (fst (protect H txts s m)) a1 = demand_edited txts txts' s a0.
+Proof. exact protect_detects_text_store. Qed.
+
+Theorem C18_invalid_iff_differs : forall txts txts' s a,
+  demand_edited txts txts' s a = Some false <-> (selects_text txts s a = true /\ selected txts s a <> selected txts' s a).
+Proof. exact demand_edited_invalid_iff. Qed.
 
 (* joins of lists of strings with the same length profile are equal only if the lists are
    (any delimiter; the delimiter is only put behind something non-empty) *)
@@ -41,12 +108,23 @@ Theorem C18_code_order_irrelevant : forall txts txts' s a,
   ann_pieces txts s a = ann_pieces txts' s a <-> selected txts s a = selected txts' s a.
 Proof. exact pieces_eq_selected. Qed.
 
+(* a store with a Multi selection over "abcab", protected in mode Both with a toy digest: valid;
+   against "abXab" the annotation over [0,2)+[3,5) stays valid and the one over [2,3) turns invalid *)
 Example C18_nonvacuous :
-  let d := [32%N] in
-  text_join d [[97%N]; []; [98%N; 99%N]] = [97%N; 32%N; 32%N; 98%N; 99%N]
-  /\ text_join d [[]; [97%N]] = [97%N]
-  /\ text_join [] [[97%N]; [97%N; 97%N]] = text_join [] [[97%N; 97%N]; [97%N]].
-Proof. repeat split; reflexivity. Qed.
+  let H := fun t : text => 48%N :: t in
+  let t0 := [97; 98; 99; 97; 98]%N in let t1 := [97; 98; 88; 97; 98]%N in
+  let ops := [AddRes 0 5;
+              Annotate (mkab None (Some (BComplex 1 [BText (ById 0) (mkoff (CB 3) (CB 5)); BText (ById 0) (mkoff (CB 0) (CB 2))])) []);
+              Annotate (mkab None (Some (BText (ById 0) (mkoff (CB 2) (CE (Zneg 2))))) []);
+              Annotate (mkab None (Some (BRes (ById 0))) [])] in
+  let s := run ops in
+  let s' := fst (protect H [t0] s 2) in
+  Forall op_ok ops
+  /\ validate_all H [t0] s' = [Some (Some true); Some (Some true); Some None]
+  /\ validate_all H [t1] s' = [Some (Some true); Some (Some false); Some None]
+  /\ text_join [32%N] [[97%N]; []; [98%N; 99%N]] = [97%N; 32%N; 32%N; 98%N; 99%N]
+  /\ text_join [32%N] [[]; [97%N]] = [97%N].
+Proof. cbv zeta. split; [repeat constructor|]. repeat split; vm_compute; reflexivity. Qed.
 
 (* Known class: when the offsets are resolved again against a text of another length, the strings
    an annotation selects may differ while their joins coincide (a Multi selection [0,1)+[2,5) of
